@@ -221,7 +221,9 @@ class Harness:
         if pers:
             for k in range(1, items + 1):
                 try:
-                    if k == 1:
+                    if k == 2 and case.get('slowarg'):
+                        w.enqueue(k=k, arg=T.SlowArg())  # rebuilding this argument in the child runs Python code
+                    elif k == 1:
                         w.enqueue(k=k, bump=1000)     # calls of differing shape: defaults must be pristine for every call
                     else:
                         w.enqueue(k=k)
@@ -291,6 +293,29 @@ class Harness:
                 term_ret = 'raised:' + type(e).__name__
             if st is not None:
                 st.go.set()
+        bystander = 'na'
+        if fault == 'term_after_finish':
+            # the target has finished on its own and nobody has looked at the worker since; other threads come and go
+            t1 = time.time()
+            while 'ret' not in _marks(mpath) and time.time() - t1 < 5:
+                time.sleep(0.01)
+            time.sleep(0.3)
+            from pyworkers.thread import ThreadWorker
+            others = [ThreadWorker(T.t_sleep, args=(None,)) for _ in range(3)]
+            try:
+                r = w.terminate(timeout=1)
+                term_ret = 'T' if r is True else 'F' if r is False else 'other'
+            except BaseException as e:  # noqa
+                term_ret = 'raised:' + type(e).__name__
+            time.sleep(0.2)
+            bystander = 'ok' if all(o.is_alive() for o in others) else 'killed'
+            for o in others:
+                try:
+                    o.terminate(timeout=2)
+                except BaseException:  # noqa
+                    pass
+            report = {'file': 'none', 'func': 'after_finish', 'line': 0, 'stack': []}
+        obs['bystander'] = bystander
         early_stream = None
         if pers and case.get('consumer') == 'nowait':
             # a consumer that only reads the stream: nobody has called wait()/is_alive()/terminate() on the worker yet
@@ -672,7 +697,7 @@ def _stream(w, items):
 
 def _hung_obs():
     return {'dead_observed': 'hung', 'reads': [], 'term_ret': 'hung', 'us_alive': 'na', 'enq_raised': 'None',
-            'fin_done': 'F', 'fin_enter': 'F', 'us_end': 'na', 'setter': 'na', 'os_alive': 'na', 'linger': 'na', 'restart_from': 'na',
+            'fin_done': 'F', 'fin_enter': 'F', 'us_end': 'na', 'setter': 'na', 'os_alive': 'na', 'linger': 'na', 'restart_from': 'na', 'bystander': 'na',
             'stream': {'got': [], 'end': 'na', 'again': 'na'}}
 
 
